@@ -1,6 +1,113 @@
 /-
-  C01 — property theorems (stub; to be filled in).
+  C01 — argument values reach the database only as bound parameters, one per placeholder.
+
+  Model: `GormModel/Model/Bind.lean` (`Gorm.Bind.addVar` = statement.go `Statement.AddVar` with everything it
+  dispatches to).  `Val β` is polymorphic in the payload β of bindable data; SQL text is `List Seg` (no β).
 -/
+import GormModel.Lemmas.Bind
+import GormModel.Gen.Misc
 namespace Gorm
+open Gorm.Bind
+
+/-- **"never becomes part of the SQL text"**: for ALL values (any nesting of slices, expressions with their own
+    arguments, named arguments, clause builders, sub-queries), both dialects, every amount of fuel and every start
+    state: building commutes with an arbitrary re-labelling `f` of the payloads.  In particular the text segments do
+    not depend on any payload, and the bound values are the payloads themselves, in the same positions. -/
+theorem C01_naturality {β γ : Type} (f : β → γ) (d : Dialect) (n : Nat) (v : Val β) (st : St β) :
+    addVar d n (v.map f) (st.map f) = (addVar d n v st).map f :=
+  Bind.addVar_nat f d n v st
+
+/-- the same for `render` (= `stmt.AddVar(stmt, v)` on a fresh statement with adequate fuel) -/
+theorem C01_render_naturality {β γ : Type} (f : β → γ) (d : Dialect) (v : Val β) :
+    render d (v.map f) = (render d v).map f :=
+  Bind.render_nat f d v
+
+/-- corollary: two inputs of the same shape (they differ only in payloads) produce the SAME text; the SQL sent to
+    the driver is a function of the shape alone -/
+theorem C01_text_independent {β γ : Type} (f : β → γ) (d : Dialect) (v : Val β) :
+    concretize d (render d (v.map f)).segs = concretize d (render d v).segs := by
+  rw [C01_render_naturality]; rfl
+
+/-- corollary: the bound values are exactly the images of the bound values -/
+theorem C01_vars_natural {β γ : Type} (f : β → γ) (d : Dialect) (v : Val β) :
+    (render d (v.map f)).vars = (render d v).vars.map (Val.map f) := by
+  rw [C01_render_naturality]; rfl
+
+/-- non-vacuity / sanity: a hostile string payload in a slice after `(`, `$n` dialect -/
+example :
+    let v : Val String := .expr "name IN (?) AND age > ?".toList [.list true [.scalar "x'); DROP--", .scalar "?"], .scalar "@n"] false
+    (String.ofList (concretize .dollar (render .dollar v).segs), (render .dollar v).vars.length, (render .dollar v).oof)
+      = ("name IN ($1,$2) AND age > $3", 3, false) := by decide
+
+/-! ### alignment of placeholders and bound values
+
+`Aligned st`: the placeholder numbers written so far, read left to right, are exactly `1..len(Vars)`
+(`ph n` is what BindVarTo wrote when `len(stmt.Vars) = n`, i.e. `$n`; for `?` the k-th `?` belongs to the k-th var). -/
+
+def Aligned {β : Type} (st : St β) : Prop := phs st.segs = List.range' 1 st.vars.length
+
+instance {β : Type} (st : St β) : Decidable (Aligned st) := by unfold Aligned; infer_instance
+
+theorem phs_append (a b : List Seg) : phs (a ++ b) = phs a ++ phs b := by
+  induction a with
+  | nil => rfl
+  | cons x xs ih => cases x <;> simp [phs, ih]
+
+/-- the only primitive that appends to `stmt.Vars` in the non-NamedArg arms (`append` + `BindVarTo`) preserves alignment -/
+theorem C01_bind_aligned {β : Type} (st : St β) (v : Val β) (h : Aligned st) : Aligned (st.bind v) := by
+  unfold Aligned at *
+  simp [St.bind, St.bindVarTo, St.appendVar, phs_append, phs, h, List.range'_concat]
+  omega
+
+/-- literal writes and quoted identifiers preserve alignment -/
+theorem C01_write_aligned {β : Type} (st : St β) (s : List Char) (h : Aligned st) :
+    Aligned (st.writeString s) ∧ Aligned (st.quote s) := by
+  unfold Aligned at *
+  simp [St.writeString, St.quote, phs_append, phs, h]
+
+/-- FINDING F21 (kernel-checked witness, replayed on the real code by the harness):
+    `Where("name = @n AND age = ?", sql.Named("n","x"), 5)` — one named and one positional parameter in the template,
+    one named and one positional argument.  BuildCondition routes it to clause.Expr (the text contains `?`); the `?`
+    consumes `Vars[0]`, which is the sql.NamedArg: AddVar's NamedArg arm appends its value and writes NO placeholder;
+    the positional 5 is then surplus and is appended without placeholder as well: two bound values, no placeholder. -/
+theorem C01_named_slot_counterexample :
+    let args : List (Val String) := [.named "n".toList (.scalar "x"), .scalar "5"]
+    let st := render .qmark (Val.whereC ((buildCondStr false "name = @n AND age = ?".toList args).getD []))
+    String.ofList (concretize .qmark st.segs) = "name = @n AND age = " ∧ st.vars.map Val.payload? = [some "x", some "5"] ∧ phs st.segs = [] ∧ ¬ Aligned st := by
+  decide
+
+/-- with the positional argument first the same template is rendered with one placeholder for it and the
+    sql.NamedArg is handed to the driver as a (driver-level) named argument for the `@n` left in the text -/
+example :
+    let args : List (Val String) := [.scalar "5", .named "n".toList (.scalar "x")]
+    let st := render .qmark (Val.whereC ((buildCondStr false "age = ? AND name = @n".toList args).getD []))
+    String.ofList (concretize .qmark st.segs) = "age = ? AND name = @n" ∧ st.vars.map Val.payload? = [some "5", none] ∧ phs st.segs = [1] := by
+  decide
+
+/-- `$n` with more than nine values: numbers are printed `$1 … $12` in order and the rendered sub-query
+    (`db.Raw(..)` as argument, textual re-templating branch of AddVar) is re-numbered after the outer value -/
+example :
+    let inner : Val String := .expr "SELECT id FROM t WHERE age IN ?".toList [.list true ((List.range 11).map fun i => .scalar (toString i))] false
+    let r := render .dollar inner
+    let outer : Val String := .expr "email <> ? AND id IN (?)".toList [.scalar "e", .rsub (concretize .dollar r.segs) r.vars] false
+    let st := render .dollar outer
+    String.ofList (concretize .dollar st.segs)
+        = "email <> $1 AND id IN (SELECT id FROM t WHERE age IN ($2,$3,$4,$5,$6,$7,$8,$9,$10,$11,$12))"
+      ∧ Aligned st ∧ st.vars.length = 12 := by
+  decide
+
+/-! ### regenerated arm table of `Statement.AddVar` (extract/main.go → Gen/Misc.lean) -/
+
+/-- every arm of the type switch that appends to `stmt.Vars` calls `BindVarTo` once per append — except the
+    `sql.NamedArg` arm (append, no placeholder) -/
+theorem C01_arms :
+    ∀ a ∈ Gen.addVarArms, a.appendsVar > 0 → (a.types = ["sql.NamedArg"] ∨ a.bindVarTo = a.appendsVar) := by decide
+
+/-- … and `sql.NamedArg` is the only such arm -/
+theorem C01_arms_named_only :
+    (Gen.addVarArms.filter (fun a => decide (a.appendsVar > a.bindVarTo))).map (·.types) = [["sql.NamedArg"]] := by decide
+
+/-- the arm table the model was transcribed from equals the one regenerated from /repo on this run -/
+theorem C01_arms_model : Bind.modelArms = Gen.addVarArms := by decide
 
 end Gorm
